@@ -74,6 +74,19 @@ CHECKS = {
   note="Trusted: TLC, helper vio (single write(2) per stream), builtin reference text taken from an unredirected run; a file is "
        "opened at most once per generated command; diagnostics of the shell may appear on whatever stderr currently is.",
   technique="TLA+ reference semantics of redirections; TLC-enumerated commands replayed on the binary, outcomes compared with the fold"),
+ "C10": dict(
+  category="model_checking",
+  text="The reference is a single left-to-right pass over the characters of a word (spec/Expand.tla: ParamRef); the loop of "
+       "shell.rs::expand_env is modelled round by round in two modes (the pinned re-scanning loop and the repaired single pass). "
+       "TLC checks for every word of up to 2 (thorough 3) segments from {literal, $A, ${A}, $B, ${B}, $AB, ${AB}, $?, $$, ${?}, "
+       "{-}, $} under 40 environments (values with $B, $A, ${B}, self and mutual references, regex-special text, blanks, $1) that "
+       "the loop ends with exactly the reference result, makes progress in every round and terminates (liveness); every (word, "
+       "environment) is replayed on the real binary unquoted, double-quoted and single-quoted under a watchdog (hangs re-run with "
+       "a 10x budget) and judged by the argv the helper received.",
+  design_ref="DESIGN.md 3.2, 6 (C10)",
+  note="Trusted: TLC, helper vpa; variables are exported through the process environment; unquoted values with blanks may arrive "
+       "split or unsplit.",
+  technique="TLA+ reference expansion + model of the expansion loop checked by TLC (safety + liveness); TLC-enumerated words replayed on the binary"),
  "C06": dict(
   category="model_checking",
   text="TLC explores every interleaving of child status changes (with Linux's report coalescing), foreground-wait iterations, "
